@@ -54,11 +54,19 @@ pub fn library() -> Vec<(&'static str, Option<Vec<Stmt>>)> {
             "p_forloop",
             Some(wrap(
                 "F",
-                vec![if_(
-                    Cond::Truthy(Expr::var("forloop")),
-                    vec![Stmt::Out(Expr::path("forloop", &["index"])), text("/"), Stmt::Out(Expr::path("forloop", &["length"]))],
-                    Some(vec![text("-")]),
-                )],
+                vec![
+                    if_(
+                        Cond::Truthy(Expr::var("forloop")),
+                        vec![Stmt::Out(Expr::path("forloop", &["index"])), text("/"), Stmt::Out(Expr::path("forloop", &["length"]))],
+                        Some(vec![text("-")]),
+                    ),
+                    // a rendered partial's loop object has no parent: the caller's loop must not show through
+                    if_(
+                        Cond::Truthy(Expr::path("forloop", &["parentloop"])),
+                        vec![text("^"), Stmt::Out(Expr::path("forloop", &["parentloop", "index"]))],
+                        Some(vec![text("~")]),
+                    ),
+                ],
             )),
         ),
         ("p_err", Some(wrap("E", vec![Stmt::Out(Expr::var("undefined_var"))]))),
